@@ -7,7 +7,10 @@ Stage C: lockstep correspondence on real TunnelCommunity / HiddenTunnelCommunity
          request) is executed on the real node and on model M04_onion (evaluated inside Coq with the toy AEAD),
          comparing actions and successor routing tables.  Faults: every header byte and sampled body bytes of
          an in-flight cell altered on every link in both directions, bodies spliced across circuits and
-         directions, cells injected under fresh keys / unknown ids.
+         directions, cells injected under fresh keys / unknown ids, the unmodified cell from a wrong sender.
+Stage G/P'/C': (tools/checks/c04_onion_gen.py) the handlers translated from the source on every run (tools/tr/tr_onion.py ->
+         gen/G04_onion.v; fail closed), props/C04x.v (the generated handlers compute what M04_onion computes; the plaintext
+         rule on gen/G03_recv.v), and the same lockstep events evaluated on the generated functions (quick: every third block).
 Oracle : (independent of the model) ping and speed-test cells sent into a plain circuit of 1..3 hops and into a
          linked e2e circuit (both directions) reach the far end's handler and the pong / response comes back to the
          sender's request cache, attributed to that circuit; datagrams returned through the exit that are shaped like
@@ -18,7 +21,8 @@ Oracle : (independent of the model) ping and speed-test cells sent into a plain 
          and the right circuit; the body on link i peels to the plaintext cell with exactly the session keys of
          hops i+1..n (raw SessionKeys, not ipv8 code) and is 24 bytes longer than on link i+1; neither the
          payload nor a body of another link occurs on a link; an altered / spliced / injected cell is never
-         delivered, never forwarded by a forward relay, and raises nothing.
+         delivered, never forwarded by a forward relay, and raises nothing; the unmodified last backward cell arriving at the
+         originator from the first hop's IP on another port or from an unrelated host reaches no consumer.
 """
 from __future__ import annotations
 
@@ -27,6 +31,7 @@ import glob
 import json
 import os
 
+from tools.checks import c04_onion_gen
 from tools.vlib import coqrun, onionlock, repoenv
 from tools.vlib.coqrun import zl
 from tools.vlib.onionlock import NULL, addr_coq
@@ -35,6 +40,7 @@ from tools.vlib.vtime import VLoop, patched_time
 IMPORTS = ("From Coq Require Import ZArith List Bool.\n"
            "From IPV8V Require Import lib.PyErr lib.Bytes model.M02_wire model.M03_recv model.M04_onion model.M04_harness.\n"
            "Import ListNotations.\nOpen Scope Z_scope.\n")
+GEN_IMPORTS = IMPORTS.replace("model.M04_harness.", "model.M04_harness %s." % c04_onion_gen.GEN_MODS)
 OVH = 24
 SIZES = [0, 1, 2, 279, 1000, 1400]
 
@@ -308,6 +314,21 @@ async def fault_round(run, c, path, direction, link, faults, base_meta, honest_d
         ok = judge_fault(ctx, evs, meta, honest_dl, strict, receiver._verif_name if (is_fwd_relay and strict) else None)
         bad += 0 if ok else 1
         ctx.count((run.tag, meta["kind"], direction, n, link, meta.get("pos"), meta.get("mask"), meta.get("how")), nontrivial=True)
+    # the originator takes a circuit's cells from its first hop's address only (origin_binding): the unmodified cell
+    # arriving from that host's IP on another port, or from an unrelated host, must not reach a consumer
+    if tuple(dst) == tuple(tn.origin.my_peer.address):
+        for sname, spoof in (("first-hop-ip-other-port", (src[0], 1024 + (src[1] + 7) % 60000)), ("unrelated-host", ("203.0.113.78", src[1]))):
+            meta = dict(base_meta, kind="wrong-sender", sender=sname,
+                        what="the unmodified cell of %s link %d delivered from %s instead of the first hop" % (direction, link, sname))
+            evs = [tn.deliver(spoof, dst, dg)]
+            await tn.drain(evs)
+            run.add_all(evs, meta)
+            dl = [d for d in deliveries(evs) if d[0] != "handler"]      # on_data is entered, and has to refuse
+            if dl:
+                ctx.violation("wrong-sender/delivered-from-%s" % sname, "%s: reached a consumer: %s" % (
+                    meta["what"], [(d[0],) + tuple(len(x) if isinstance(x, bytes) else x for x in d[1:]) for d in dl][:3]), meta)
+                bad += 1
+            ctx.count((run.tag, "wrong-sender", direction, n, link, sname), nontrivial=True)
     # the honest datagram still goes through afterwards
     evs = [tn.deliver(src, dst, dg)]
     await tn.drain(evs)
@@ -819,6 +840,10 @@ def evaluate(ctx, run, label):
                   json.dumps(cases[i][2])[:500] + "\nCASE " + cases[i][0][:1500] + "\nIMPL " + cases[i][1][:1500])
     ctx.coverage["traces_validated_against_impl"] += len(cases) - len(mism)
     ctx.extra.setdefault("lockstep_events", {})[label] = len(cases)
+    # extension: the same events on the functions translated from the source (gen/G04_onion.v)
+    if ctx.extra.get("generated", {}).get("gen/G04_onion.v"):
+        c04_onion_gen.evaluate(ctx, run.tn, GEN_IMPORTS, "g_run_lcase", "outcome_eqb", cases, label, "lcase * outcome",
+                               "model/M04_onion_gen.vo", every=3 if ctx.quick else 1)
 
 
 async def _run(ctx):
@@ -950,7 +975,10 @@ def run(ctx):
             ctx.count(("corpus", os.path.basename(f), json.dumps(c, sort_keys=True)), nontrivial=True)
     # stage P
     ctx.proofs()
-    ctx.coverage["trusted_base"] = [
+    # extension: the handlers translated from the AST (gen/G04_onion.v), theorems in props/C04x.v
+    if c04_onion_gen.translate(ctx) is not None:
+        ctx.proofs(part="C04x")
+    ctx.coverage["trusted_base"] = c04_onion_gen.NOT_TRANSLATED + [
         "Coq 8.16.1 kernel; no axioms",
         "AEAD hypotheses on ipv8_rust_tunnels.SessionKeys (ChaCha20-Poly1305): decryption inverts encryption; whatever decrypts under (key, direction) "
         "was produced by encryption under it; a ciphertext under one (key, direction) does not decrypt under another; ciphertexts are longer than plaintexts",
@@ -968,7 +996,7 @@ def run(ctx):
                             "ping/pong, cell kinds {ping, speed-test} x {plain 1..3 hops, linked e2e both directions} "
                             "with request-cache oracle, returned IPv8-shaped data (own / foreign prefix), returned datagrams shaped like every tunnel message type x 3 outside senders; faults per direction and link: every header byte, 64 sampled "
                             "(thorough: all) body bytes, truncation, extension, cross-circuit and reflected splices, injection under fresh keys / unknown id / "
-                            "plaintext flag; one end-to-end (rendezvous) circuit pair, both directions: sizes, every size 0..22, "
+                            "plaintext flag, the unmodified cell from a wrong sender (first hop's IP on another port, unrelated host) at the originator; one end-to-end (rendezvous) circuit pair, both directions: sizes, every size 0..22, "
                             "non-IPv8 and IPv8-shaped payloads (foreign / own prefix), faults on every link; each event is one lockstep case; "
                             "distinct = distinct scenario parameters")
 
